@@ -175,6 +175,9 @@ def run_case(kind, case):
     if kind == "concurcase":
         from vf import concur
         return concur.replay_cases(run_case, PROPERTY, case, CONCUR_FILES)
+    if kind == "histconcur":
+        from vf.runner import replay_histconcur
+        return replay_histconcur(run_case, PROPERTY, case, CONCUR_FILES, hist_ops)
     if kind == "interrupted":
         from vf import seqexplore
         return seqexplore.replay_interrupted(run_case, case)
@@ -182,6 +185,15 @@ def run_case(kind, case):
         from vf import seqexplore
         return seqexplore.replay(run_case, case)
     return CASES[kind](case)
+
+
+def hist_ops(job):
+    """a long homogeneous history for E7: sign() under the keys of the small group in turn, a different message each time"""
+    cv = job["curve"]
+    C = smallcurve.curve(cv)
+    n = 1300 if job.get("tier") == "quick" else 4500
+    return [("sign", {"curve": cv, "sk": (1 + i % (C.n - 1)).to_bytes(32, "big").hex(), "msg": i.to_bytes(2, "big").hex(),
+                      "aux": bytes([i % 251]).hex() * 32, "token": "5a" * 32}) for i in range(n)]
 
 
 def long_ops(job):
@@ -281,12 +293,14 @@ def jobs(tier, seed):
     js += seq_jobs(2, weight=6, name="seqreal")
     from vf.runner import long_jobs
     js += long_jobs(curve=list(T[5]))
+    from vf.runner import histconcur_jobs
+    js += histconcur_jobs(curve=list(T[0]))
     from vf.runner import interrupt_jobs
     js += interrupt_jobs(len(INTERRUPT_X), curve=list(T[0]))
     for sh in range(4):
         js.append({"name": f"secp/longmsg/{sh}", "part": "real-longmsg", "shard": [sh, 4], "weight": 6})
     from vf.runner import concur_jobs
-    js += concur_jobs(len(CONCUR_SCEN) - (1 if tier == "quick" else 0), curve=list(T[0]))
+    js += concur_jobs(len(CONCUR_SCEN) - (1 if tier == "quick" else 0), curve=list(T[0]), deep=(tier == "thorough"))
     for i in range(3):
         js.append({"name": f"concurrent/{i}", "part": "concur", "curve": list(T[0]), "idx": i, "weight": 8})
     return js
@@ -301,6 +315,9 @@ def run_job(job):
     if job["part"] == "longhist":
         from vf.runner import run_long_job
         return run_long_job(job, long_ops(job), run_case)
+    if job["part"] == "histconcur":
+        from vf.runner import run_histconcur_job
+        return run_histconcur_job(job, hist_ops(job), run_case, PROPERTY, CONCUR_FILES)
     if job["part"] == "interrupted":
         from vf.runner import run_interrupt_job
         ops = [o for o in seq_ops(dict(job, part="interrupted", shard=[0, 1]))]
